@@ -23,10 +23,10 @@ from drivers import config_merge as drv
 
 OUT = tlc.OUT
 SCRATCH = os.path.join(OUT, "configmerge")
-INV = ["MostAuthoritativeWins", "InvalidStopsStartup", "ValidStarts"]
+INV = ["MostAuthoritativeWins", "InvalidStopsStartup", "ValidStarts", "FallbackOnlyWhenUnmentioned"]
 DEVS = {"EnvBeforeFile": "MostAuthoritativeWins", "CliIfDifferent": "MostAuthoritativeWins",
         "SwallowInvalid": "InvalidStopsStartup", "EnvFileIgnored": "MostAuthoritativeWins",
-        "ReloadKeepsValues": "MostAuthoritativeWins"}
+        "ReloadKeepsValues": "MostAuthoritativeWins", "FallbackFirst": "FallbackOnlyWhenUnmentioned"}
 NPROC = 8
 
 
@@ -49,7 +49,8 @@ def design(ctx):
             ctx.coverage["exhaustive"] = True
         else:
             d = label[4:]
-            ok = DEVS[d] in r.violated
+            # (skipping a spelled-out default also leaves the stand-in variable in charge: either invariant may trip first)
+            ok = DEVS[d] in r.violated or (d == "CliIfDifferent" and "FallbackOnlyWhenUnmentioned" in r.violated)
             ctx.coverage.setdefault("deviation_runs", []).append(
                 {"dev": d, "violated": sorted(set(r.violated)), "reproduced": ok})
             if not ok:
@@ -70,10 +71,12 @@ def emit_cases():
     return rows
 
 
-def driver(n, mode, payload=None, timeout=1500):
+def driver(n, mode, payload=None, timeout=1500, fbset=None):
     wd = os.path.join(SCRATCH, "w%d" % n)
     os.makedirs(wd, exist_ok=True)
     env = dict(os.environ, VERIF_REPO=os.environ.get("VERIF_REPO", "/repo"), PWD=wd)
+    if fbset:
+        env["VERIF_FBSET"] = str(fbset)
     p = subprocess.run([sys.executable, "-B", os.path.abspath(drv.__file__), mode], cwd=wd, env=env,
                        input=json.dumps(payload) if payload is not None else None, capture_output=True, text=True,
                        timeout=timeout)
@@ -167,12 +170,26 @@ def c16(ctx):
                 rl = rng.sample(rl, 60)
             for c in rl:
                 jobs.append((s["name"], dict(c, reload=True)))
+        # the stand-in environment variables (SENDFILE, WEB_CONCURRENCY, PORT, FORWARDED_ALLOW_IPS): the same loads in two
+        # processes that differ only in the variable's value; what the server works with may differ only while no
+        # source mentions the setting
+        fbjobs = []
+        for s in settings:
+            if s["name"] not in drv.FALLBACK_SETTINGS:
+                continue
+            cs = [c for c in by_kind.get(s["kind"], []) if "dflt" not in (c["env"], c["cli"])]
+            if per is not None and len(cs) > 300:
+                cs = rng.sample(cs, 300)
+            fbjobs += [(s["name"], c) for c in cs]
+        keys = ("fw", "file", "env", "cli", "files")
+        fbf = [ex.submit(driver, 100 + k, "run", [[nm, {x: c[x] for x in keys}] for nm, c in fbjobs], fbset=k) for k in (1, 2)]
         ctx.coverage["abstract_cases"] = len(rows)
         # distribute: interleave so that every worker gets a mix
         parts = [jobs[n::NPROC] for n in range(NPROC)]
         futs = [ex.submit(driver, n, "run", [[nm, {k: c[k] for k in ("fw", "file", "env", "cli", "files", "badeq", "reload", "badalt") if k in c}]
                                              for nm, c in part]) for n, part in enumerate(parts)]
         results = [f.result() for f in futs]
+        fb1, fb2 = [f.result() for f in fbf]
         fd.result()
     per_setting = {}
     skipped = {"inexpressible": 0, "unusable": 0}
@@ -184,7 +201,7 @@ def c16(ctx):
                 continue
             loads += 1
             ev = {"kind": c["kind"], "fw": c["fw"], "file": c["file"], "env": c["env"], "cli": c["cli"],
-                  "files": c["files"], "fail": r["fail"], "obs": r["obs"]}
+                  "files": c["files"], "fail": r["fail"], "obs": r["obs"], "fb": "no", "fbdep": False}
             if c.get("badeq"):
                 ev["badeq"] = True
             if c.get("badalt"):
@@ -195,6 +212,18 @@ def c16(ctx):
                 ev["reload"] = True
                 ev["file"] = "no"         # what the sources say at the time of the reload
             per_setting.setdefault(nm, []).append((ev, r, c))
+    nfb = 0
+    for (nm, c), r1, r2 in zip(fbjobs, fb1, fb2):
+        if "skip" in r1 or "skip" in r2:
+            continue
+        loads += 2
+        nfb += 1
+        dep = (not r1["fail"]) and (not r2["fail"]) and r1.get("used") != r2.get("used")
+        ev = {"kind": c["kind"], "fw": c["fw"], "file": c["file"], "env": c["env"], "cli": c["cli"],
+              "files": c["files"], "fail": r1["fail"], "obs": r1["obs"], "fb": "set", "fbdep": dep}
+        r1 = dict(r1, stand_in=drv.FALLBACK_SETTINGS[nm], used_with_other_value=r2.get("used"))
+        per_setting.setdefault(nm, []).append((ev, r1, c))
+    ctx.coverage["loads_with_stand_in_variable"] = nfb
     ctx.coverage["loads"] = loads
     ctx.coverage["cases_skipped_inexpressible"] = skipped["inexpressible"]
     ctx.coverage["loads_per_setting_min_max"] = [min(len(v) for v in per_setting.values()),
@@ -250,6 +279,8 @@ def judge(ctx, per_setting):
                                                                   got_from(ev, ev["obs"], ev["fail"]),
                                                                   ",invalid==current" if ev.get("badeq") else ",invalid-type" if ev.get("badalt") else "",
                                                                   ",after-reload" if ev.get("reload") else "")
+            if v == "FallbackOnlyWhenUnmentioned":
+                sig = "C16/%s/setting=%s,top=%s,variable=%s" % (v, n, top_of(ev), r.get("stand_in"))
             ctx.violation(sig, "%s: setting %s (%s): sources fw=%s file=%s env=%s cli=%s, files named by %s -> %s; "
                           "argv=%s GUNICORN_CMD_ARGS=%r" % (v, n, ev["kind"], ev["fw"], ev["file"], ev["env"],
                                                             ev["cli"], ev["files"], r.get("detail"), r.get("argv"),
